@@ -9,7 +9,7 @@
 (* implementation's f32 arithmetic is exact, so these operators are a      *)
 (* bit-exact oracle for src/tensor.rs.                                     *)
 (***************************************************************************)
-EXTENDS Integers, Sequences, FiniteSets, Folds, Functions
+EXTENDS Integers, Sequences, FiniteSets, Folds, Functions, TLC
 
 \* ---------- sums -------------------------------------------------------
 SumSeq(s) == FoldFunction(LAMBDA a, b : a + b, 0, s)
@@ -20,6 +20,9 @@ Abs(x) == IF x < 0 THEN -x ELSE x
 Max2(a, b) == IF a >= b THEN a ELSE b
 Min2(a, b) == IF a <= b THEN a ELSE b
 
+\* small seeded integers in -3..3 used as parameters / inputs of the bounded instances
+Val(seed, i) == ((seed * 7919 + i * 104729 + i * i * 31) % 7) - 3
+
 \* ---------- shapes ------------------------------------------------------
 Count(shape) == Prod(shape)
 
@@ -27,16 +30,16 @@ Count(shape) == Prod(shape)
 \* Row-major element sequence of a rank-3 nested sequence.
 Flat3(t) ==
   LET c == Len(t)  h == Len(t[1])  w == Len(t[1][1])
-  IN  [n \in 1..(c*h*w) |->
-         t[((n-1) \div (h*w)) + 1][(((n-1) % (h*w)) \div w) + 1][((n-1) % w) + 1]]
+  IN  TLCEval([n \in 1..(c*h*w) |->
+         t[((n-1) \div (h*w)) + 1][(((n-1) % (h*w)) \div w) + 1][((n-1) % w) + 1]])
 
 Flat2(t) ==
   LET r == Len(t)  c == Len(t[1])
-  IN  [n \in 1..(r*c) |-> t[((n-1) \div c) + 1][((n-1) % c) + 1]]
+  IN  TLCEval([n \in 1..(r*c) |-> t[((n-1) \div c) + 1][((n-1) % c) + 1]])
 
 \* Rank-3 nested sequence with the given dimensions whose row-major sequence is v.
 Unflat3(v, c, h, w) ==
-  [i \in 1..c |-> [j \in 1..h |-> [k \in 1..w |-> v[((i-1)*h + (j-1))*w + k]]]]
+  TLCEval([i \in 1..c |-> TLCEval([j \in 1..h |-> TLCEval([k \in 1..w |-> v[((i-1)*h + (j-1))*w + k]])])])
 
 Dims3(t) == <<Len(t), Len(t[1]), Len(t[1][1])>>
 
@@ -66,10 +69,10 @@ GetTriple(T, shape) ==
   IF Len(T.shape) = 1 THEN Unflat3(T.data, shape[1], shape[2], shape[3]) ELSE T.data
 
 \* ---------- element-wise maps (ranks 1..4 on nested sequences) ---------------
-Map1(Op(_, _), a, b) == [i \in 1..Len(a) |-> Op(a[i], b[i])]
-Map2(Op(_, _), a, b) == [i \in 1..Len(a) |-> Map1(Op, a[i], b[i])]
-Map3(Op(_, _), a, b) == [i \in 1..Len(a) |-> Map2(Op, a[i], b[i])]
-Map4(Op(_, _), a, b) == [i \in 1..Len(a) |-> Map3(Op, a[i], b[i])]
+Map1(Op(_, _), a, b) == TLCEval([i \in 1..Len(a) |-> Op(a[i], b[i])])
+Map2(Op(_, _), a, b) == TLCEval([i \in 1..Len(a) |-> Map1(Op, a[i], b[i])])
+Map3(Op(_, _), a, b) == TLCEval([i \in 1..Len(a) |-> Map2(Op, a[i], b[i])])
+Map4(Op(_, _), a, b) == TLCEval([i \in 1..Len(a) |-> Map3(Op, a[i], b[i])])
 
 MapR(Op(_, _), rank, a, b) ==
   CASE rank = 1 -> Map1(Op, a, b)
@@ -77,10 +80,10 @@ MapR(Op(_, _), rank, a, b) ==
     [] rank = 3 -> Map3(Op, a, b)
     [] rank = 4 -> Map4(Op, a, b)
 
-Un1(Op(_), a) == [i \in 1..Len(a) |-> Op(a[i])]
-Un2(Op(_), a) == [i \in 1..Len(a) |-> Un1(Op, a[i])]
-Un3(Op(_), a) == [i \in 1..Len(a) |-> Un2(Op, a[i])]
-Un4(Op(_), a) == [i \in 1..Len(a) |-> Un3(Op, a[i])]
+Un1(Op(_), a) == TLCEval([i \in 1..Len(a) |-> Op(a[i])])
+Un2(Op(_), a) == TLCEval([i \in 1..Len(a) |-> Un1(Op, a[i])])
+Un3(Op(_), a) == TLCEval([i \in 1..Len(a) |-> Un2(Op, a[i])])
+Un4(Op(_), a) == TLCEval([i \in 1..Len(a) |-> Un3(Op, a[i])])
 UnR(Op(_), rank, a) ==
   CASE rank = 1 -> Un1(Op, a)
     [] rank = 2 -> Un2(Op, a)
@@ -97,14 +100,14 @@ FlatR(rank, a) ==
     [] rank = 2 -> Flat2(a)
     [] rank = 3 -> Flat3(a)
     [] rank = 4 -> LET n == Len(a) m == Len(Flat3(a[1]))
-                   IN [k \in 1..(n*m) |-> Flat3(a[((k-1) \div m) + 1])[((k-1) % m) + 1]]
+                   IN TLCEval([k \in 1..(n*m) |-> Flat3(a[((k-1) \div m) + 1])[((k-1) % m) + 1]])
 
 \* ---------- linear algebra ------------------------------------------------
 \* `dot`: matrix (rows x cols) times vector.
-Dot(W, x) == [i \in 1..Len(W) |-> SumF([j \in 1..Len(x) |-> W[i][j] * x[j]])]
+Dot(W, x) == TLCEval([i \in 1..Len(W) |-> SumF(TLCEval([j \in 1..Len(x) |-> W[i][j] * x[j]]))])
 \* `product`: outer product a b^T.
-Outer(a, b) == [i \in 1..Len(a) |-> [j \in 1..Len(b) |-> a[i] * b[j]]]
-Transpose(W) == [j \in 1..Len(W[1]) |-> [i \in 1..Len(W) |-> W[i][j]]]
+Outer(a, b) == TLCEval([i \in 1..Len(a) |-> TLCEval([j \in 1..Len(b) |-> a[i] * b[j]])])
+Transpose(W) == TLCEval([j \in 1..Len(W[1]) |-> TLCEval([i \in 1..Len(W) |-> W[i][j]])])
 Clamp(x, lo, hi) == Max2(lo, Min2(hi, x))
 
 \* Index (1-based) of the maximum; the implementation's `max_by` returns the LAST maximal element.
